@@ -26,6 +26,10 @@ def _pre_trace(frame, event, arg):
     return None
 
 
+def _pre_thread_trace(frame, event, arg):
+    return None
+
+
 def _pre_profile(frame, event, arg):
     return None
 
@@ -46,9 +50,12 @@ def apply_pre(pre):
         orig_f, orig_p = tb.format_exception, tb.print_exception
         tb.format_exception = lambda *a, **k: orig_f(*a, **k)
         tb.print_exception = lambda *a, **k: orig_p(*a, **k)
-    if pre.get('hooks'):
+    if pre.get('hooks') and pre['hooks'] != 'none':
+        # 'both': sys and threading hooks (two different functions, so that a
+        # mix-up is visible); 'sys': only sys.settrace (a debugger)
         sys.settrace(_pre_trace)
-        threading.settrace(_pre_trace)
+        if pre['hooks'] != 'sys':
+            threading.settrace(_pre_thread_trace)
         sys.setprofile(_pre_profile)
 
 
